@@ -30,30 +30,6 @@ use crate::lex::verif_kani::common::is_suffix_at;
 use crate::scheme::verif_kani::common::{field, scheme_of};
 use crate::scheme::FieldIndex;
 
-/// Cut-off for the regex compiler.  kani-compiler 0.68 crashes (rvalue.rs:1009,
-/// discriminant of a regex_automata type) as soon as `Regex::new` is statically
-/// reachable, which it is from `lex_with_lhs`.  No obligation here hands a well-formed
-/// regex literal to the lexer, so the function must never run: reaching it is a
-/// FAILED check (panic), i.e. this stub cannot make an obligation pass.
-pub(crate) fn regex_new__must_not_be_reached(
-    _pattern: &str,
-    _format: crate::rhs_types::RegexFormat,
-    _settings: &crate::ast::parse::ParserSettings,
-) -> Result<Regex, crate::rhs_types::RegexError> {
-    panic!("the regex compiler was reached")
-}
-
-/// Cut-off for the destructor of `BTreeSet<ExpectedType>` (inside
-/// `LexErrorKind::TypeMismatch`).  Every `if let Ok(..) = expect(..)` of the real lexers
-/// drops a `LexErrorKind`; CBMC does not fold its niche-encoded tag and walks the B-tree
-/// destructor of a set that is not there (measured: > 250 s for ONE drop at unwind 20).
-/// `<BTreeMap as Drop>::drop` is `drop(ptr::read(self).into_iter())`; replacing
-/// `core::mem::drop` by `forget` leaks the (non-existent) tree instead.  Memory
-/// reclamation is not part of C04/C05; std's BTreeMap is in the trusted base.
-pub(crate) fn mem_drop__leak<T>(x: T) {
-    std::mem::forget(x)
-}
-
 // ---------------------------------------------------------------------------
 // (A) spelling table of the real operator lexer
 
@@ -82,7 +58,7 @@ macro_rules! spelling_table {
     ($name:ident, $unwind:literal, $( $text:literal => $op:expr, $len:literal; )+) => {
         #[kani::proof]
         #[kani::unwind($unwind)]
-        #[kani::stub(std::mem::drop, crate::ast::field_expr::verif_kani::c04::mem_drop__leak)]
+        #[kani::stub(std::mem::drop, crate::ast::field_expr::verif_kani::common::mem_drop__leak)]
         fn $name() {
             $( assert!(lexes_to($text, $op, $len), $text); )+
             kani::cover!(true, "table completed");
@@ -129,7 +105,7 @@ spelling_table!(spelling_table__strict_wildcard, 20,
 /// Anything else is not an operator (error located at the start of the text).
 #[kani::proof]
 #[kani::unwind(8)]
-#[kani::stub(std::mem::drop, crate::ast::field_expr::verif_kani::c04::mem_drop__leak)]
+#[kani::stub(std::mem::drop, crate::ast::field_expr::verif_kani::common::mem_drop__leak)]
 fn spelling_table__not_an_operator() {
     assert!(is_no_operator("!"));
     assert!(is_no_operator(""));
@@ -320,8 +296,8 @@ macro_rules! cell {
         #[kani::proof]
         #[kani::unwind(4)]
         #[kani::solver(minisat)]
-        #[kani::stub(crate::rhs_types::regex::Regex::new, crate::ast::field_expr::verif_kani::c04::regex_new__must_not_be_reached)]
-        #[kani::stub(std::mem::drop, crate::ast::field_expr::verif_kani::c04::mem_drop__leak)]
+        #[kani::stub(crate::rhs_types::regex::Regex::new, crate::ast::field_expr::verif_kani::common::regex_new__must_not_be_reached)]
+        #[kani::stub(std::mem::drop, crate::ast::field_expr::verif_kani::common::mem_drop__leak)]
         #[kani::stub(<crate::ast::field_expr::ComparisonOp as crate::lex::Lex>::lex, crate::ast::field_expr::verif_kani::c04::comparison_op_lex__contract)]
         #[kani::stub(<i64 as crate::lex::Lex>::lex, crate::ast::field_expr::verif_kani::c04::i64_lex__contract)]
         #[kani::stub(<std::net::IpAddr as crate::lex::Lex>::lex, crate::ast::field_expr::verif_kani::c04::ip_addr_lex__contract)]
@@ -401,8 +377,8 @@ macro_rules! bare_boolean {
         #[kani::proof]
         #[kani::unwind(4)]
         #[kani::solver(minisat)]
-        #[kani::stub(crate::rhs_types::regex::Regex::new, crate::ast::field_expr::verif_kani::c04::regex_new__must_not_be_reached)]
-        #[kani::stub(std::mem::drop, crate::ast::field_expr::verif_kani::c04::mem_drop__leak)]
+        #[kani::stub(crate::rhs_types::regex::Regex::new, crate::ast::field_expr::verif_kani::common::regex_new__must_not_be_reached)]
+        #[kani::stub(std::mem::drop, crate::ast::field_expr::verif_kani::common::mem_drop__leak)]
         #[kani::stub(<crate::ast::field_expr::ComparisonOp as crate::lex::Lex>::lex, crate::ast::field_expr::verif_kani::c04::comparison_op_lex__contract)]
         #[kani::stub(<i64 as crate::lex::Lex>::lex, crate::ast::field_expr::verif_kani::c04::i64_lex__contract)]
         #[kani::stub(<std::net::IpAddr as crate::lex::Lex>::lex, crate::ast::field_expr::verif_kani::c04::ip_addr_lex__contract)]
@@ -456,8 +432,8 @@ bare_boolean!(
 #[kani::proof]
 #[kani::unwind(4)]
 #[kani::solver(minisat)]
-#[kani::stub(crate::rhs_types::regex::Regex::new, crate::ast::field_expr::verif_kani::c04::regex_new__must_not_be_reached)]
-#[kani::stub(std::mem::drop, crate::ast::field_expr::verif_kani::c04::mem_drop__leak)]
+#[kani::stub(crate::rhs_types::regex::Regex::new, crate::ast::field_expr::verif_kani::common::regex_new__must_not_be_reached)]
+#[kani::stub(std::mem::drop, crate::ast::field_expr::verif_kani::common::mem_drop__leak)]
 #[kani::stub(<crate::ast::field_expr::ComparisonOp as crate::lex::Lex>::lex, crate::ast::field_expr::verif_kani::c04::comparison_op_lex__contract)]
 #[kani::stub(<i64 as crate::lex::Lex>::lex, crate::ast::field_expr::verif_kani::c04::i64_lex__contract)]
 #[kani::stub(<std::net::IpAddr as crate::lex::Lex>::lex, crate::ast::field_expr::verif_kani::c04::ip_addr_lex__contract)]
